@@ -128,6 +128,31 @@ def gen_programs(ctx, n):
     return out
 
 
+def sweep_programs(ctx):
+    """Deterministic length sweep: for every statement form and nesting depth, print the complete sweep once with both
+    styles and keep the steps whose final operand ends in the last columns of a line (or was just pushed to the next
+    line); the reduced programs go through the ordinary level (ii) pipeline."""
+    from loki import Sourcefile
+    from loki.backend.style import FortranStyle, IFSFortranStyle
+    from .. import lib_fm_long as G
+    texts = []
+    nsteps = 0
+    for form in G.SWEEP_FORMS:
+        for depth in ((0, 3) if ctx.quick else (0, 1, 3, 6)):
+            sf = Sourcefile.from_source(G.sweep_text(form, depth))
+            keep = set()
+            for mk in (FortranStyle, IFSFortranStyle):
+                keep |= G.sweep_hits(sf.to_fortran(style=mk()))
+            keep = sorted(keep & set(G.SWEEP_STEPS))
+            if not keep:
+                raise MachineryError(f'C04 sweep {form}/{depth}: no step reaches the end of a line')
+            nsteps += len(keep)
+            texts.append(G.sweep_text(form, depth, keep))
+    ctx.cover['level2_sweep_programs'] = len(texts)
+    ctx.cover['level2_sweep_statements'] = nsteps
+    return texts
+
+
 def statement_at(lines, ln):
     """(first line, last line) of the logical statement that contains physical line ln (1-based) -- for reports only."""
     a = ln
@@ -161,6 +186,7 @@ def level2(ctx):
         return
     else:
         texts = gen_programs(ctx, int(os.environ.get('C04_L2_N', '0')) or (6 if ctx.quick else 120))
+        texts += sweep_programs(ctx)
     styles = [('default', FortranStyle, 132), ('ifs', IFSFortranStyle, 132)]
     if not ctx.quick:
         styles.append(('default-w80', lambda **kw: FortranStyle(**{'linewidth': 80, **kw}), 80))
